@@ -60,6 +60,54 @@ def rate_level(chk, core, rng, count):
         if dev2 > 1e-9:
             chk.violation(dict(level="rates", clause="crystal-two-fold", fabric=fab, regime=regime), f"rates are not invariant under a lattice two-fold: deviation {dev2:.3g} (fabric {fab}, regime {regime}, params {PAR})", dict(fab=fab, regime=regime, par=PAR, A=A.tolist(), f=f.tolist(), L=L.tolist(), S=S.tolist(), mask=mask.tolist()))
     chk.maximum("rate_level_deviation", worst)
+    principal_frame(chk, core, rng, max(12, count // 10))
+
+
+def principal_frame(chk, core, rng, count):
+    """Aggregates in which some grains are aligned EXACTLY with the principal axes of an irrotational flow given in its
+    principal frame (no slip system is resolved on them there; in the rotated frame they are in general position),
+    evaluated right after an unrelated aggregate of the same size - as happens when several polycrystals are advanced in
+    one process.  Tolerances: 1e-6 on the orientation rates, 5e-2 relative on the volume rates: the aligned grains carry
+    exactly zero strain energy in the principal frame and a rounding-born one in the rotated frame (resolved shear
+    ~1e-16 raised to the power p/n), which moves the volume rates by up to 3e-3 of their largest value on the unchanged
+    tree (1500 draws); a mis-assigned energy moves them by O(1)."""
+    octa = np.round(Rotation.create_group("O").as_matrix())
+    worst_o = worst_f = 0.0
+    for i in range(count):
+        PAR = PARS[i % len(PARS)]
+        fab = ["A", "B", "C", "D", "E", "EN"][i % 6]
+        regime = [4, 6][(i // 6) % 2]
+        phase, fabric = kernel.FAB[fab]
+        n = [8, 5, 20][i % 3]
+        L = np.diag([[2.0, -0.5, -1.5], [1.0, -1.0, 0.0], [0.5, 0.5, -1.0], [-0.5, 1.0, -0.5]][i % 4])
+        A = Rotation.random(n, random_state=int(rng.integers(1 << 30))).as_matrix()
+        for g in rng.choice(n, size=2, replace=False):
+            A[g] = octa[int(rng.integers(24))]
+        f = rng.random(n) + 0.2
+        f /= f.sum()
+        Q = Rotation.random(random_state=int(rng.integers(1 << 30))).as_matrix()
+
+        def call(Ax, Lx):
+            return core.derivatives(regime, phase, fabric, n, Ax.copy(), f.copy(), (Lx + Lx.T) / 2, Lx, np.zeros((3, 3)), PAR["p"], PAR["n"], PAR["lam"], PAR["M"], PAR["phi"])
+
+        try:
+            call(Rotation.random(n, random_state=int(rng.integers(1 << 30))).as_matrix(), layerb.FLOWS["ss_xz"])   # the unrelated aggregate
+            o1, df1 = call(A, L)
+            o2, df2 = call(np.einsum("gij,kj->gik", A, Q), Q @ L @ Q.T)
+        except Exception as e:  # noqa: BLE001
+            chk.violation(dict(level="rates", clause="principal-frame-raised", exc=type(e).__name__), f"derivatives raised {e!r} on an aggregate with grains aligned with the principal axes of the flow", dict(fab=fab, regime=regime))
+            continue
+        o1, df1, o2, df2 = (np.asarray(x, dtype=float) for x in (o1, df1, o2, df2))
+        eo = float(np.abs(o2 - np.einsum("gij,kj->gik", o1, Q)).max()) / max(1.0, float(np.abs(o1).max()))
+        ef = float(np.abs(df2 - df1).max()) / max(float(np.abs(df1).max()), 1e-300) if np.abs(df1).max() > 0 else float(np.abs(df2).max())
+        worst_o, worst_f = max(worst_o, eo), max(worst_f, ef)
+        chk.count(("principal-frame", i))
+        if not (eo <= 1e-6 and ef <= 5e-2):
+            chk.violation(dict(level="rates", clause="frame-rotation-principal-frame", fabric=fab, regime=regime),
+                          f"rates of an aggregate with grains aligned with the principal axes of the flow are not frame-indifferent (orientation rates {eo:.3g}, volume rates {ef:.3g} relative; fabric {fab}, regime {regime})",
+                          dict(fab=fab, regime=regime, par=PAR, A=A.tolist(), f=f.tolist(), L=L.tolist(), Q=Q.tolist(), how="an unrelated aggregate of the same size is evaluated first"))
+    chk.maximum("principal_frame_orientation_rate_dev", worst_o)
+    chk.maximum("principal_frame_volume_rate_dev", worst_f)
 
 
 def rate_level_ties(chk, core, cases, rng):
